@@ -5,6 +5,7 @@ from ..front_common import hx, split_dump, child
 
 ALLOWED_AXIOMS = ()
 COMPONENT = "lints"
+NEEDS_SLICEC = True
 LINTS = ["Deprecated", "BrokenDocLink", "IncorrectDocComment", "MalformedDocComment"]
 DOC = {"BrokenDocLink": "/// {@link Nope}", "IncorrectDocComment": "/// @param zz: nothing", "MalformedDocComment": "/// @foo bar",
        # other producers of MalformedDocComment: comments whose pieces are all legal but do not fit the comment grammar, and unterminated links
@@ -166,6 +167,10 @@ def run(ck):
     for kind, pos, cli, slots, silenced in cases:
         if kind.startswith("MalformedDocComment") and (cli or slots) and rng.random() < 0.5:
             more.append((kind, pos, cli, dict(slots, __broken__=["other file"]), silenced))
+    # ... and when the error is in the lint's own file
+    for kind, pos, cli, slots, silenced in list(cases):
+        if kind.startswith("MalformedDocComment") and (cli or slots) and "__broken__" not in slots and rng.random() < 0.35:
+            more.append((kind, pos, cli, dict(slots, __broken_same__=[rng.choice(["syntax", "tag"])]), silenced))
     cases += more
 
     def attr(args, directive="allow"):
@@ -173,8 +178,10 @@ def run(ck):
     lines, base_lines = [], []
     for kind, pos, cli, slots, _ in cases:
         def texts(directive):
-            sl = {k: (("[[%s(%s)]]" % (directive, ", ".join(v))) if k in ("file0", "file1") else attr(v, directive)) for k, v in slots.items() if k != "__broken__"}
+            sl = {k: (("[[%s(%s)]]" % (directive, ", ".join(v))) if k in ("file0", "file1") else attr(v, directive)) for k, v in slots.items() if not k.startswith("__broken")}
             t0 = build(kind, pos, sl)
+            if "__broken_same__" in slots:
+                t0 += "struct {\n" if slots["__broken_same__"] == ["syntax"] else "struct Late { tag(-1) z: int32? }\n"
             t1 = (sl.get("file1", "") + "\n" if "file1" in sl else "") + (other_file if "__broken__" not in slots else "module N\nstruct X { y: int32 }\nstruct {\n")
             return t0, t1
         opts = ",".join("A:" + c for c in cli) or "-"
@@ -202,7 +209,12 @@ def run(ck):
             continue
         want = "Allowed" if silenced else "Warning"
         if target[0]["level"] != want:
-            ck.violation("placement-matrix", "silenced-wrongly" if target[0]["level"] == "Allowed" else "not-silenced", bytes.fromhex(line.split(" ")[2]).decode(),
+            fam_ = "silenced-wrongly" if target[0]["level"] == "Allowed" else "not-silenced"
+            lint_ = kind.split("/")[0]
+            reasons = {k for k, a in slots.items() if not k.startswith("__") and ((lint_ in a) or ("All" in a)) and (k == "file0" or k in ENCLOSING[pos])}
+            if fam_ == "not-silenced" and "__broken_same__" in slots and not cli and reasons == {"file0"}:
+                fam_ = "file-attribute-lost-when-its-own-file-has-an-error"      # one defect, told apart from any other (a known finding)
+            ck.violation("placement-matrix", fam_, bytes.fromhex(line.split(" ")[2]).decode(),
                          "%s is %s (cli=%s, attributes=%s)" % (lint, want, cli, slots), target[0]["level"],
                          signature={"lint": lint, "position": pos, "placement": "+".join(sorted(slots)) or ("cli" if cli else "none"), "case": "exact" if cli == [c for c in cli if c in LINTS + ["All"]] else "other-case"})
         # 2. non-interference: nothing else changes
@@ -213,6 +225,8 @@ def run(ck):
             ck.violation("placement-matrix", "suppression-changes-the-ast", bytes.fromhex(line.split(" ")[2]).decode(), "the same AST but for the attribute's directive", "the dumps differ",
                          detail="with allow: %s\nwithout:    %s" % (oo.split(" || ")[0][:400], bb.split(" || ")[0][:400]))
         # 3. model: level of every diagnostic from its recorded scope and the attributes the AST shows
+        if "__broken_same__" in slots:
+            continue      # a file that reported an error keeps neither its attributes nor its definitions in the SliceFile the harness dumps: nothing to give the model
         ml = model_line(files_sx, diags, cli)
         mlines.append(ml)
         meta.append((line, [d["level"] for d in diags]))
@@ -222,6 +236,7 @@ def run(ck):
         if got != levels:
             ck.violation("placement-matrix", "level-differs-from-model", bytes.fromhex(line.split(" ")[2]).decode(), " ".join(got), " ".join(levels), detail=ml, kind="correspondence")
     errors_untouched(ck)
+    accepted_values(ck)
     random_programs(ck)
     ck.samples.append({"stream": "placement-matrix", "case": bytes.fromhex(lines[len(lines) // 2].split(" ")[2]).decode(), "options": lines[len(lines) // 2].split(" ")[1], "model_input": mlines[len(mlines) // 2], "model": m[len(m) // 2], "impl": o[len(lines) // 2][-300:]})
     ck.extra["exhaustive"] = True
@@ -345,6 +360,38 @@ ERROR_PROGRAMS = [
     "module M\n%(def)sstruct S { a: }\n",
     "module M\n%(def)scompact struct S {}\n[deprecated] custom C\ntypealias A = C\n",
 ]
+
+
+def accepted_values(ck):
+    """every --allow value the command line accepts silences the lint it names: a value is either refused (usage error) or effective"""
+    from .. import driver_common as dc
+    rng = ck.rng
+    prog = {"Deprecated": "module M\n[deprecated] struct Old {}\nstruct S { a: Old }\n", "BrokenDocLink": "module M\n/// {@link Nope}\nstruct S {}\n",
+            "IncorrectDocComment": "module M\n/// @param zz: x\nstruct S {}\n", "MalformedDocComment": "module M\n/// @foo bar\nstruct S {}\n"}
+    lines, meta = [], []
+    for lint, text in prog.items():
+        for v in [lint, lint.lower(), lint.upper(), " " + lint, lint + " ", "  " + lint.lower() + "  ", lint + "\r", lint + "\t", "\u00a0" + lint, lint + "s", lint[:-1], "All", "all", " All", "ALL ", "a l l", "", lint + "," + "All", "-" + lint]:
+            for form in ("--allow", "-A", "--allow="):
+                extra = ["--diagnostic-format", "json", "--dry-run"] + ([form + v] if form.endswith("=") else [form, v])
+                lines.append(dc.run_line(False, extra, [], [("S", "a.slice", text)]))
+                meta.append((lint, v, form))
+    o = dc.run_all(lines, chunk=20)
+    ck.stream("accepted-values", description="the slicec binary with --allow/-A values spelled exactly, in other case, with blanks, tabs, a carriage return or a no-break space around them, misspelled, empty, joined by a comma: "
+              "a value is either refused with a usage error or silences the lint it names (nothing is accepted and then ignored)")
+    for (lint, v, form), line, oo in zip(meta, lines, o):
+        ck.count("accepted-values", line, kind="%s %r" % (form, v.replace(lint, "L").replace(lint.lower(), "l").replace(lint.upper(), "LL")))
+        r = dc.parse_run(oo)
+        if r is None or r["exit"] not in ("0", "1", "2"):
+            ck.violation("accepted-values", "crash", "%s %r" % (form, v), "exit 0 or a usage error", oo[:200])
+            continue
+        if r["exit"] == "2":
+            continue          # refused: nothing was promised
+        warned = [d for d in dc.json_diags(r["stderr"]) if d.get("error_code") == lint and d.get("severity") == "warning"]
+        names = v.strip().lower() in (lint.lower(), "all")
+        if warned and names:
+            ck.violation("accepted-values", "accepted-value-does-not-silence", "%s %r on\n%s" % (form, v, prog[lint]), "refused (exit 2) or %s silenced" % lint, "accepted, %s still a warning" % lint, signature={"form": form})
+        elif not warned and not names:
+            ck.violation("accepted-values", "silenced-by-a-value-that-does-not-name-it", "%s %r on\n%s" % (form, v, prog[lint]), "%s reported" % lint, "silenced", signature={"form": form})
 
 
 def errors_untouched(ck):
